@@ -363,7 +363,8 @@ def generated_picture_doc(rng):
         if uri is None:
             return Frame.text_frame("in frame  x", size=("2cm", "1cm"), name=f"t{i}", anchor_type=anchor)
         pos = (f"{rng.randrange(9)}cm", f"{rng.randrange(9)}cm") if anchor != "as-char" and rng.random() < 0.5 else None
-        return Frame.image_frame(uri, name=f"logo{i}", size=(f"{rng.randrange(1, 4)}cm", "2cm"), position=pos, anchor_type=anchor)
+        caption = rng.choice([None, None, "caption", "two  blanks"])      # a paragraph held by the draw:image itself
+        return Frame.image_frame(uri, name=f"logo{i}", size=(f"{rng.randrange(1, 4)}cm", "2cm"), position=pos, anchor_type=anchor, text=caption)
 
     if kind == "presentation":
         page = None
@@ -598,13 +599,14 @@ def flat_structure(chk, case, want: dict, got: dict) -> None:
         else:
             chk.fail({**detail, "clause": "structure-attributes"}, "flat XML export: the element structure or an attribute value differs from the plain zip save")
         return
-    # what an embedded draw:image holds besides the picture: observed, reported in the evidence, not judged here
+    # what an embedded draw:image holds besides the picture (ODF allows paragraphs there: a caption) is kept
     for i, (a, b) in enumerate(zip(want["inside"], got["inside"])):
         if a or b:
-            key = "kept" if a == b else "differs: " + ",".join(t.rpartition("}")[2] for t, _ in a) + " -> " + (",".join(t.rpartition("}")[2] for t, _ in b) or "nothing")
-            chk.count("flat XML: other children of an embedded draw:image", key)
+            chk.count("flat XML: other children of an embedded draw:image", "kept" if a == b else "differ")
             if a != b:
-                chk.extra.setdefault("flat_image_children_differ", []).append({**case, "image": i})
+                chk.fail({**case, "clause": "image-children", "image": i, "zip_save": [t.rpartition("}")[2] for t, _ in a], "flat_xml": [t.rpartition("}")[2] for t, _ in b]},
+                         "flat XML export: an embedded draw:image does not hold the children (paragraphs) it holds in the plain zip save")
+                return
 
 
 def replay(obj: dict) -> int:
